@@ -47,6 +47,27 @@ class Obj:
     __repr__ = __str__
 
 
+class Floaty:
+    """a host object with its own __float__: returns a number, returns a non-float (TypeError in float()), or raises"""
+
+    def __init__(self, how):
+        self.how = how
+
+    def __float__(self):
+        if self.how == 'raise':
+            raise RuntimeError('cannot convert')
+        if self.how == 'overflow':
+            raise OverflowError('too large')
+        if self.how == 'text':
+            return 'not a float'
+        return float(self.how)
+
+    def __str__(self):
+        return 'Floaty(%s)' % (self.how,)
+
+    __repr__ = __str__
+
+
 def build_value(spec):
     """JSON value description -> live Python value.  {'obj': {...}} = Obj, {'tuple': [...]}, {'set': [...]},
     {'exc': [cls, msg]} = exception instance; everything else as is (lists / dicts recursively)."""
@@ -57,6 +78,8 @@ def build_value(spec):
             return tuple(build_value(v) for v in spec['tuple'])
         if set(spec) == {'exc'}:
             return EXC_CLASSES[spec['exc'][0]](spec['exc'][1])
+        if set(spec) == {'floaty'}:
+            return Floaty(spec['floaty'])
         return {k: build_value(v) for k, v in spec.items()}
     if isinstance(spec, list):
         return [build_value(v) for v in spec]
@@ -128,6 +151,11 @@ def describe(v, failed=False):
             val = {'k': 'float', 'v': repr(v)}
         elif type(v) is str:
             val = {'k': 'str', 'v': v}
+        elif isinstance(v, Floaty):
+            try:
+                val = {'k': 'float', 'v': repr(float(v))}     # an object that converts: described by its number
+            except Exception:   # noqa: B902
+                val = {'k': 'other'}
     return {'failed': failed, 'isExc': isinstance(v, BaseException), 'ty': type(v).__name__, 'text': text, 'val': val}
 
 
